@@ -1,6 +1,6 @@
 \* emission (quick): every tree of <= 3 nodes, one JSON case per tree.  No axial grid here: among armi's classes only an
 \* Assembly re-indexes its children (I4), and assemblies are exercised by the real histories, not by generic composites.
-CONSTANTS MaxNodes = 3  CompTypes = {"A", "B"}  Grids = {"none", "g1", "g2", "g1b"}  NCells = 2  MaxLevel = 9
+CONSTANTS MaxNodes = 3  CompTypes = {"A", "B"}  Grids = {"none", "g1", "g2", "g1b", "g0"}  NCells = 2  MaxLevel = 9
 INIT Init
 NEXT Next
 CONSTRAINT Bound
